@@ -167,6 +167,37 @@ func init() {
 		}
 	}
 	generators["c05"] = genC05
+	// c06lcell (property C06: "whether a polygon contains or meets a cell" = brute force): loops and polygons of LARGE radius —
+	// long edges that span several cube faces — under coarse coverer configurations (InteriorCovering asks ContainsCell, Covering
+	// asks IntersectsCell) and pred lines for low-level cells at and around their vertices (seeded change C06_6: edges no longer
+	// clipped to the face of the target cell).
+	generators["c06lcell"] = func(g *G) {
+		r := g.rng
+		for g.count < g.n {
+			kind := []string{"loop", "loop", "starloop", "poly"}[r.Intn(4)]
+			rad := 0.25 + 1.2*r.Float()
+			if r.Intn(5) == 0 {
+				rad = math.Pow(10, -3+2.5*r.Float())
+			}
+			reg := g.c05MakeRegion(kind, g.c05Center(), rad)
+			if reg == nil {
+				continue
+			}
+			cfg := c05Cfg{r.Intn(3), 2 + r.Intn(5), 1, 8 + r.Intn(40)}
+			g.c05Emit(reg, cfg, false)
+			for k := 0; k < 6 && g.count < g.n; k++ {
+				p := g.c05Center()
+				if len(reg.pts) > 0 && r.Intn(3) > 0 {
+					p = reg.pts[r.Intn(len(reg.pts))]
+				}
+				id := s2.VerifCellIDFromPoint(p).Parent(r.Intn(8))
+				if r.Intn(3) == 0 {
+					id = id.EdgeNeighbors()[r.Intn(4)]
+				}
+				g.emitPred(reg.kind, reg.params, id)
+			}
+		}
+	}
 	generators["c05s18"] = genC05S18
 	generators["c05polar"] = genC05Polar
 }
